@@ -593,6 +593,13 @@ def corpus_cases():
         cs.append({'op': 'calc', 'mode': mode, 'table': t, 'field': 'k', 'ast': ['mul', ['var', 'v'], ['lit', F(2)]], 'expr': '(v * 2)',
                    'variables': None})
         cs.append({'op': 'sort', 'mode': mode, 'table': t, 'sorts': [['k', ['bool', True]], ['v']]})
+        # measures whose mean dwarfs their spread (ids, epoch milliseconds, prices): a one-pass E[x^2] - E[x]^2 loses every digit here
+        big = []
+        for key, vals in (('ids', [100000001.0, 100000002.0, 100000003.0]), ('ms', [1700000000000.0, 1700000001500.0, 1700000003000.0]),
+                          ('price', [250000.01, 250000.02, 250000.04]), ('one', [123456789.25]), ('neg', [-99999999.5, -99999998.5, -100000000.5, -99999997.5])):
+            big += [[['k', S(key)], ['v', F(x)]] for x in vals]
+        cs.append({'op': 'aggregate', 'mode': mode, 'table': big, 'aggregation': agg})
+        cs.append({'op': 'aggregate', 'mode': mode, 'table': big, 'aggregation': {'measures': agg['measures']}})
     return cs
 
 
@@ -1024,6 +1031,7 @@ def run(tier):
 
     csv_stats = run_csv(chk, r, env, thorough)
     probes = run_probes(chk, env)
+    csv_stats['zone_round_trips'] = run_csv_zones(chk)
 
     # ---- correspondence
     corr = {'terms': 0, 'agree': 0, 'declined': 0}
@@ -1119,6 +1127,27 @@ def malformed_cases(r, n):
         k = r.randint(0, fns[f] + 1)
         out.append({'src': f'return {f}(' + ', '.join(r.choice(pool) for _ in range(k)) + ')\n', 'expect_null': False})
     return out
+
+
+def run_csv_zones(chk):
+    """the datetime leg of the CSV round trip in zones WITH daylight saving (the main stream runs under UTC): a datetime written with
+    value_string in the process zone and read back by dataParseCSV is the same datetime, in both seasons and next to the transitions"""
+    dates = [(2024, 1, 15, 12, 30, 0), (2024, 7, 15, 12, 30, 0), (2024, 3, 10, 3, 30, 0), (2024, 11, 3, 0, 30, 0), (2024, 3, 31, 3, 30, 0),
+             (2024, 10, 27, 4, 0, 0), (2024, 4, 7, 1, 0, 0), (2024, 10, 6, 3, 0, 0), (1999, 12, 31, 23, 59, 59), (2038, 6, 1, 0, 0, 0)]
+    lines = [f'd{i} = datetimeNew({", ".join(map(str, d))})' for i, d in enumerate(dates)]
+    lines.append("rows = dataParseCSV('t', " + ', '.join(f'stringNew(d{i})' for i in range(len(dates))) + ')')
+    lines.append('return arrayNew(' + ', '.join(f"d{i} == objectGet(arrayGet(rows, {i}), 't')" for i in range(len(dates))) + ')')
+    text = '\n'.join(lines) + '\n'
+    n = 0
+    for zone in ('America/New_York', 'Europe/Berlin', 'Australia/Lord_Howe', 'Pacific/Chatham', 'America/Santiago', 'UTC'):
+        out = core.run_impl('run_script', [{'text': text, 'globals': {}, 'max': 0}], env=core.impl_env({'TZ': zone}), shards=1)[0]
+        got = out.get('res')
+        want = ['arr', [['bool', True]] * len(dates)]
+        n += len(dates)
+        if got != want:
+            chk.oracle_fail.append({'class': 'csv-datetime-round-trip-differs-in-a-dst-zone', 'source': text, 'zone': zone,
+                                    'input': {'TZ': zone, 'dates': dates}, 'got': out})
+    return n
 
 
 def run_csv(chk, r, env, thorough):
